@@ -327,23 +327,23 @@ theorem C08_pool_ctor_throw (ops : List PoolOp) (h v : Nat) :
   have hnd := hi.pi.parkedNodup
   rw [e]
   refine ⟨?_, ?_, ?_, ?_, rfl, rfl, ?_, ?_, ?_, ?_, ?_, ?_⟩
-  · simp only [Pool.allocThrow, Pool.ctorEnter, Pool.allocA]; split <;> rfl
-  · simp only [Pool.allocThrow, Pool.ctorEnter, Pool.allocA]; split <;> rfl
-  · simp only [Pool.allocThrow, Pool.ctorEnter, Pool.allocA]; split <;> rfl
-  · simp only [Pool.allocThrow, Pool.ctorEnter, Pool.allocA]; split <;> rfl
-  · simp only [Pool.allocThrow, Pool.ctorEnter, Pool.allocA]; split <;> rfl
-  · simp only [Pool.allocThrow, Pool.ctorEnter, Pool.allocA]; split <;> simp_all
+  · simp only [Pool.allocThrow, Pool.ctorThrow, Pool.ctorEnter, Pool.allocA]; split <;> rfl
+  · simp only [Pool.allocThrow, Pool.ctorThrow, Pool.ctorEnter, Pool.allocA]; split <;> rfl
+  · simp only [Pool.allocThrow, Pool.ctorThrow, Pool.ctorEnter, Pool.allocA]; split <;> rfl
+  · simp only [Pool.allocThrow, Pool.ctorThrow, Pool.ctorEnter, Pool.allocA]; split <;> rfl
+  · simp only [Pool.allocThrow, Pool.ctorThrow, Pool.ctorEnter, Pool.allocA]; split <;> rfl
+  · simp only [Pool.allocThrow, Pool.ctorThrow, Pool.ctorEnter, Pool.allocA]; split <;> simp_all
   · have := hi'.pi.freeNum; rw [e] at this; exact this
   · -- not parked any more: it was the head of a chain without duplicates, or a new block
     cases hp : s.pool.parked with
     | nil =>
-        simp only [Pool.allocThrow, Pool.ctorEnter, Pool.allocA, hp]; simp
+        simp only [Pool.allocThrow, Pool.ctorThrow, Pool.ctorEnter, Pool.allocA, hp]; simp
     | cons b rest =>
         rw [hp] at hnd
-        simp only [Pool.allocThrow, Pool.ctorEnter, Pool.allocA, hp]
+        simp only [Pool.allocThrow, Pool.ctorThrow, Pool.ctorEnter, Pool.allocA, hp]
         exact (List.nodup_cons.1 hnd).1
   · have : ({ s with pool := s.pool.allocThrow } : PoolSys).pool.released = s.pool.released := by
-      simp only [Pool.allocThrow, Pool.ctorEnter, Pool.allocA]; split <;> rfl
+      simp only [Pool.allocThrow, Pool.ctorThrow, Pool.ctorEnter, Pool.allocA]; split <;> rfl
     rw [this]; exact hA.2.2
   · exact hA.2.1
 
